@@ -123,7 +123,17 @@ func Planted(r *rand.Rand) (*Grammar, []string) {
 	}
 	// unreachable rules
 	if r.Intn(3) == 0 {
-		switch r.Intn(4) {
+		switch r.Intn(7) {
+		case 4:
+			// the only '.', the only capture or the only predicate of the grammar sits in an unused rule
+			add("X6", Seq(Dot(), Lit("x"), Un(KNot, Dot())))
+			tags = append(tags, "unused:single", "unused:only-dot")
+		case 5:
+			add("X7", Seq(Un(KCapture, Lit("a")), Act()))
+			tags = append(tags, "unused:single", "unused:only-capture", "unused:with-action")
+		case 6:
+			add("X8", Seq(Pred(PTrue, 0), Rng('x', 'z')))
+			tags = append(tags, "unused:single", "unused:only-predicate")
 		case 0:
 			add("X0", Seq(Ref("T0"), Lit("x")))
 			tags = append(tags, "unused:single")
